@@ -1286,6 +1286,29 @@ func genSchema(L *loader) (string, any, []string) {
 		sb.WriteString(fmt.Sprintf("  (%q, %q)%s\n", fn, cond, sep))
 	}
 	sb.WriteString("]\n")
+	// ---- internal buffer sizes of Encoder / Decoder (value sizes that straddle them are
+	// exercised by the harness)
+	for _, tn := range []string{"Encoder", "Decoder"} {
+		n := int64(-1)
+		if pkg := L.pkgs[coreMod+"/types"]; pkg != nil {
+			if obj := pkg.Scope().Lookup(tn); obj != nil {
+				if st, ok := obj.Type().Underlying().(*types.Struct); ok {
+					for i := 0; i < st.NumFields(); i++ {
+						if st.Field(i).Name() == "buf" {
+							if arr, ok := st.Field(i).Type().Underlying().(*types.Array); ok {
+								n = arr.Len()
+							}
+						}
+					}
+				}
+			}
+		}
+		if n < 0 {
+			g.errs = append(g.errs, "schema buffer size: types."+tn+".buf is not an array any more")
+			n = 0
+		}
+		sb.WriteString(fmt.Sprintf("\n/-- `len(types.%s{}.buf)` -/\ndef %sBufSize : Nat := %d\n", tn, strings.ToLower(tn), n))
+	}
 	// ---- every `make` in a decoder body whose size is not a literal (candidates for
 	// allocation from an untrusted length); the Lean side ties the list to a reviewed one
 	sb.WriteString("\n/-- (decoder, `make` call whose length is computed at run time) -/\ndef decoderMakes : List (String × String) := [\n")
